@@ -31,6 +31,7 @@ class Compiler:
         self.capture = tuple(capture)
         self.uses_this = False
         self.with_this = with_this
+        self.refs = set()          # decl ids of reference locals bound to a modelled lvalue (object with get/set)
         self.hooks = hooks or {}
         self.enum_values = enum_values or {}
         self.names = {}
@@ -57,8 +58,8 @@ class Compiler:
             raise NotCompilable('literal %s' % str(x)[:80])
         if k == 'ref':
             if x.get('dk') in ('param', 'local', 'slocal', 'bind'):
-                if 'c' in x and x.get('dk') not in ('param',) and False:
-                    return repr(x['c'])
+                if x.get('d') in self.refs:
+                    return '_rd(%s)' % self.var(x)
                 return self.var(x)
             if 'c' in x:
                 return repr(x['c'])
@@ -96,6 +97,8 @@ class Compiler:
                 return self._wrap('(~(%s))' % self.expr(x['e']), x)
             if op == '+':
                 return self.expr(x['e'])
+            if op == '*':
+                return '_rd(%s)' % self.expr(x['e'])
             raise NotCompilable('unary ' + op)
         if k == 'bin':
             op = x['op']
@@ -136,6 +139,18 @@ class Compiler:
             return self.expr(x['e'])
         raise NotCompilable('expression kind %s' % k)
 
+    def lvalue(self, x):
+        """code of the modelled lvalue object (get/set) designated by x, or None"""
+        while isinstance(x, dict) and x.get('k') in ('icast', 'cast') and not x.get('tw'):
+            x = x['e']
+        if isinstance(x, dict) and x.get('k') == 'elem':
+            x = self.fn.resolve(x)
+        if isinstance(x, dict) and x.get('k') == 'un' and x.get('op') == '*':
+            return self.expr(x['e'])
+        if isinstance(x, dict) and x.get('k') == 'ref' and x.get('d') in self.refs:
+            return self.var(x)
+        return None
+
     @staticmethod
     def _wrap(code, x, wk='rw', sk='rs'):
         """C semantics of the result type: unsigned results wrap modulo 2^w; signed overflow is reported"""
@@ -154,7 +169,10 @@ class Compiler:
                 if d.get('k') != 'decl':
                     raise NotCompilable('declaration kind')
                 name = self.var(d)
-                if d.get('init') is not None:
+                if d.get('isref') and d.get('init') is not None and self.lvalue(d['init']) is not None:
+                    self.refs.add(d['d'])
+                    out.append('%s%s = %s' % (ind, name, self.lvalue(d['init'])))
+                elif d.get('init') is not None:
                     out.append('%s%s = %s' % (ind, name, self.expr(d['init'])))
                 else:
                     out.append('%s%s = 0' % (ind, name))
@@ -163,6 +181,22 @@ class Compiler:
             l = x['l']
             while isinstance(l, dict) and l.get('k') in ('icast', 'cast'):
                 l = l['e']
+            lv = self.lvalue(l)
+            if lv is not None:
+                op = x['op']
+                r = self.expr(x['r'])
+                if op == '=':
+                    val = r
+                elif op[:-1] in _BIN:
+                    val = self._wrap('((_rd(%s)) %s (%s))' % (lv, _BIN[op[:-1]], r), x)
+                else:
+                    raise NotCompilable('assignment ' + op)
+                if x.get('lw'):
+                    val = ('_s(%s, %d)' % (val, x['lw'])) if x.get('ls') else '((%s) & %d)' % (val, (1 << x['lw']) - 1)
+                out.append('%s_lv = %s' % (ind, lv))
+                out.append('%s_lv.set(%s)' % (ind, val))
+                out.append('%s%s = _lv' % (ind, tgt))
+                return None
             if not (isinstance(l, dict) and l.get('k') == 'ref'):
                 raise NotCompilable('assignment target')
             name = self.var(l)
@@ -252,6 +286,9 @@ class Compiler:
             ind = '            '
             body_start = len(out)
             ended = False
+            if blk.noret:
+                out.append(ind + 'raise AssertionError("assertion failed in extracted code")')
+                continue
             for i, x in enumerate(blk.elems):
                 if self.stmt(b, i, x, out, ind) == 'ret':
                     ended = True
@@ -281,7 +318,7 @@ class Compiler:
             if len(out) == body_start:
                 out.append(ind + 'pass')
         src = '\n'.join(out)
-        env = {'_h': self.hooks, '_s': _s, '_div': _div, '_mod': _mod, '_cp': _cp, '_mem': _mem, '_sc': _sc}
+        env = {'_h': self.hooks, '_s': _s, '_div': _div, '_mod': _mod, '_cp': _cp, '_mem': _mem, '_sc': _sc, '_rd': _rd}
         try:
             exec(src, env)
         except SyntaxError as e:
@@ -304,6 +341,11 @@ def _sc(v, w):
     if not -(1 << (w - 1)) <= v < (1 << (w - 1)):
         raise SignedOverflow('%d does not fit a signed %d-bit result' % (v, w))
     return v
+
+
+def _rd(o):
+    """read through a modelled pointer / reference (an object with get()); anything else is its own value"""
+    return o.get() if hasattr(o, 'get') and hasattr(o, 'set') else o
 
 
 def _mem(o, n):
